@@ -149,10 +149,10 @@ def ensure_parsec(targets=("parsec", "parsec-ptgpp"), build=PBUILD, extra_cmake=
         if not os.path.exists(os.path.join(build, "build.ninja")):
             os.makedirs(build, exist_ok=True)
             rc, out, err = run(["cmake", "-G", "Ninja", "-S", REPO, "-B", build] + CMAKE_ARGS
-                               + list(extra_cmake), timeout=600)
+                               + list(extra_cmake), timeout=3600)
             if rc != 0:
                 return False, "cmake failed:\n" + out[-3000:] + err[-3000:]
-        rc, out, err = run(["ninja", "-C", build] + list(targets), timeout=1500)
+        rc, out, err = run(["ninja", "-C", build] + list(targets), timeout=7200)
         if rc != 0:
             return False, "ninja failed:\n" + out[-4000:] + err[-2000:]
     return True, ""
@@ -178,7 +178,7 @@ def build_harness(src, out, link_parsec=False, extra=(), build=PBUILD, extra_src
         libdir = os.path.join(build, "parsec")
         cmd += ["-L" + libdir, "-lparsec", "-Wl,-rpath," + libdir]
     cmd += ["-lpthread", "-lm", "-lhwloc"] + MPI_LINK + list(extra)
-    rc, o, e = run(cmd, timeout=300)
+    rc, o, e = run(cmd, timeout=1800)
     return rc == 0, (o + e)[-6000:]
 
 
@@ -189,10 +189,10 @@ def build_race_harness(src, out, link_parsec=False, extra=(), build=PBUILD, cfla
     os.makedirs(BIN, exist_ok=True)
     obj, rto = out + ".o", out + ".rt.o"
     rc, o, e = run(["clang"] + harness_cflags(build) + ["-w", "-fsanitize=thread", "-DVERIF_RACE"] + list(cflags)
-                   + ["-c", os.path.join(VERIF, src), "-o", obj], timeout=300)
+                   + ["-c", os.path.join(VERIF, src), "-o", obj], timeout=1800)
     if rc != 0:
         return False, (o + e)[-4000:]
-    rc, o, e = run(["cc", "-O1", "-mcx16", "-c", os.path.join(VERIF, "harness/tsanrt.c"), "-o", rto], timeout=120)
+    rc, o, e = run(["cc", "-O1", "-mcx16", "-c", os.path.join(VERIF, "harness/tsanrt.c"), "-o", rto], timeout=900)
     if rc != 0:
         return False, (o + e)[-4000:]
     cmd = ["cc", obj, rto, "-o", out]
@@ -200,7 +200,7 @@ def build_race_harness(src, out, link_parsec=False, extra=(), build=PBUILD, cfla
         libdir = os.path.join(build, "parsec")
         cmd += ["-L" + libdir, "-lparsec", "-Wl,-rpath," + libdir]
     cmd += ["-lpthread", "-lm", "-lhwloc"] + MPI_LINK + list(extra)
-    rc, o, e = run(cmd, timeout=300)
+    rc, o, e = run(cmd, timeout=1800)
     return rc == 0, (o + e)[-4000:]
 
 
@@ -226,7 +226,7 @@ def coq_makefile():
     os.makedirs(os.path.join(COQ, "extracted"), exist_ok=True)
 
 
-def coq_make(targets, timeout=3000, jobs=16):
+def coq_make(targets, timeout=7200, jobs=16):
     """full .vo build of the given targets (paths relative to coq/), -k."""
     with Lock("coq"):
         coq_makefile()
@@ -302,7 +302,7 @@ def hygiene(files):
     return bad
 
 
-def print_assumptions(vfile, timeout=600):
+def print_assumptions(vfile, timeout=2400):
     """re-run coqc on a property file (its deps are built), parse Print Assumptions.
     returns (ok, {theorem: [axioms]}, log)"""
     tmpd = os.path.join(WORK, "tmpvo")
@@ -365,7 +365,7 @@ def build_driver(comp, driver_src, extracted, out):
     shutil.copy(os.path.join(VERIF, driver_src), q)
     srcs.append(q)
     rc, o, e = run(["ocamlfind", "ocamlopt", "-inline", "20", "-w", "-a",
-                    "-I", objdir] + srcs + ["-o", out], timeout=600, cwd=objdir)
+                    "-I", objdir] + srcs + ["-o", out], timeout=1800, cwd=objdir)
     return rc == 0, (o + e)[-6000:]
 
 
@@ -447,7 +447,7 @@ class Check:
             if job.get("fuel"):
                 cmd += ["--fuel", job["fuel"]]
             with Lock("coq"):
-                rc, o, e = run(cmd, timeout=300)
+                rc, o, e = run(cmd, timeout=1800)
             if rc != 0:
                 fails.append(Failure("proof", "translator could not regenerate %s from %s" % (job["out"], job["file"]),
                                      (o + e)[-1500:]))
